@@ -9,7 +9,7 @@ THOROUGH = dict(worlds=256, runs=5000, seconds=30)
 RULE = ("seeded lint-clean circuit x one of limit_fanin/limit_fanout/insert_registers/acyclic_unroll; distinct = "
         "canonical net + op + k; non-trivial = the transform actually had something to do (arity or fan-out above k, "
         "a stage boundary with nodes, or >= 2 gates for acyclic_unroll)")
-PROBES = ["fanin>k:and", "fanin>k:nand", "fanin>k:or", "fanin>k:nor", "fanin>k:xor", "fanin>k:xnor",
+PROBES = ["chained_transforms", "fanin>k:and", "fanin>k:nand", "fanin>k:or", "fanin>k:nor", "fanin>k:xor", "fanin>k:xnor",
           "regroup_rounds>=2", "fanout>k:input", "fanout>k:gate", "stage_boundary>=2", "acyclic_unroll:input_is_output"]
 ASSUMPTIONS = ["<= 6 startpoints, <= 14 gates", "no 'x' constants"]
 
@@ -28,7 +28,12 @@ def gen(rng, tier):
     else:
         net = G.gen_net(rng, n_inputs=(1, 4), n_gates=(1, 10), types=G.swarm_types(rng), max_arity=4, constants=0.2,
                         input_outputs=rng.choice((0.0, 0.3)))
-    return {"net": net, "op": op, "k": k, "stages": rng.randint(1, 4), "peer": {"seed": rng.getrandbits(32)}}
+    pre = []
+    if rng.random() < 0.4:
+        # a history: earlier transforms whose RESULT (with its generated names) is the argument of the judged call
+        for _ in range(rng.randint(1, 2)):
+            pre.append([rng.choice(("limit_fanin", "limit_fanin", "limit_fanout")), rng.randint(2, 6)])
+    return {"net": net, "op": op, "k": k, "stages": rng.randint(1, 4), "pre": pre, "peer": {"seed": rng.getrandbits(32)}}
 
 
 def run(case, ctx):
@@ -41,8 +46,22 @@ def run(case, ctx):
     if len(free) > 8:
         raise Skip("too many startpoints")
     c = ref.build(cg, net)
-    before = ref.snapshot(c)
     sig = {"op": op}
+    for pop, pk in case.get("pre", []):
+        # the earlier calls are workload; each is judged by its own runs.  Their result becomes the argument.
+        try:
+            c = getattr(cg.tx, pop)(c, pk)
+        except Exception as e:
+            raise Skip(f"pre-step {pop} raised {type(e).__name__}")
+        ctx.probe("chained_transforms")
+        sig["chained"] = True
+    if case.get("pre"):
+        net = ref.snapshot(c)
+        net = {"name": net["name"], "nodes": net["nodes"], "bbs": net["bbs"]}
+        if not ref.is_lint_clean(net) or ref.is_cyclic(net):
+            raise Skip("pre-steps left an ill-formed circuit (reported by their own runs)")
+        free = ref.free_nodes(net)
+    before = ref.snapshot(c)
     nodes = net["nodes"]
     fo = ref.fanout_map(net)
     if op == "limit_fanin":
@@ -150,10 +169,15 @@ def run(case, ctx):
 
 
 def sig_key(sig):
-    return (sig.get("op"), sig.get("exc"), sig.get("type"), sig.get("input_is_output"))
+    return (sig.get("op"), sig.get("exc"), sig.get("type"), sig.get("input_is_output"), sig.get("chained"))
 
 
 def shrink(case):
+    pre = case.get("pre", [])
+    if pre:
+        yield dict(case, pre=[])
+        for i in range(len(pre)):
+            yield dict(case, pre=pre[:i] + pre[i + 1:])
     for net in G.shrink_net(case["net"]):
         if net is not None and ref.is_lint_clean(net) and not ref.is_cyclic(net):
             yield dict(case, net=net)
@@ -170,8 +194,8 @@ def fingerprint(case, r):
                  (op == "limit_fanout" and any(k.startswith("fanout>k") for k in p)) or \
                  (op == "insert_registers" and r["stats"].get("flops_inserted", 0) > 0) or \
                  (op == "acyclic_unroll" and len(case["net"]["nodes"]) >= 3)
-    return fp([ref.canon(case["net"]), op, case["k"], case["stages"]]) if nontrivial else None
+    return fp([ref.canon(case["net"]), op, case["k"], case["stages"], case.get("pre")]) if nontrivial else None
 
 
 def sample(case, r):
-    return {"net": case["net"], "op": case["op"], "k": case["k"], "stages": case["stages"]}
+    return {"net": case["net"], "pre": case.get("pre"), "op": case["op"], "k": case["k"], "stages": case["stages"]}
